@@ -30,7 +30,7 @@ REPORT_COUNTERS = ['parses', 'accepted_by_both', 'rejected_by_both', 'trees_equa
 def plan(tier, seed):
   flavour = 'asan' if tier == 'thorough' else 'prod'
   return {'nshards': 16, 'timeout_s': 7200 if tier == 'thorough' else 1200,
-          'params': {'n_cases': 2000 if tier == 'thorough' else 330, 'flavour': flavour}, 'env': build.shard_env(flavour)}
+          'params': {'n_cases': 800 if tier == 'thorough' else 330, 'flavour': flavour}, 'env': build.shard_env(flavour)}
 
 
 def prepare(tier, seed, out_dir):
